@@ -55,8 +55,10 @@ def run(ctx):
         if arm is None:
             continue
         rets = early_returns(ip, arm)
-        ctx.check((len(arm.oks), len(arm.tail)) == (noks, ntails), "result-sites", v,
-                  f"{v}: produces its result at exactly {noks} Ok(..) site(s) and {ntails} delegating call(s) (found {len(arm.oks)}, {len(arm.tail)})", ip.b.span)
+        # an upper bound: merging two sites into one (`Ok(match ..)`) is the same function, an additional site is a new way
+        # of producing a result that no row describes
+        ctx.check(len(arm.oks) <= noks and len(arm.tail) <= ntails and len(arm.oks) + len(arm.tail) >= 1, "result-sites", v,
+                  f"{v}: produces its result at no more than {noks} Ok(..) site(s) and {ntails} delegating call(s) (found {len(arm.oks)}, {len(arm.tail)})", ip.b.span)
     # slices and indexes are core forms too: the reference-tree equivalence of the slice routine (shared with C07)
     from .. import slicecheck
     res = slicecheck.verify(lib)
@@ -396,7 +398,7 @@ def check_get_field(ctx, lib):
             for t in w.result_on_path(path):
                 if t == ("agg", V + "::Null", (), ()):
                     outs.add("null")
-                elif t[0] == "call" and t[1].endswith("BTreeMap::<K, V, A>::get") and set(t[2][0]) == {("field", ("param", 1), "Object.0")} and set(t[2][1]) == {("param", 2)}:
+                elif t[0] == "call" and t[1].endswith("BTreeMap::<K, V, A>::get") and set(t[2][0]) in ({("field", ("param", 1), "Object.0")}, {("view", "object", ("param", 1))}) and set(t[2][1]) == {("param", 2)}:
                     outs.add("map.get(key)")
                 else:
                     outs.add("?" + fmt_terms([t]))
